@@ -71,6 +71,15 @@ void DependencyInfoParser::parse() {
   while (cur != end) {
     const char* opcodeStart = cur;
     auto opcode = Opcode(*cur++);
+
+    // If the opcode was the last byte of the file (the null byte validated as
+    // the terminator above), the record has no operand and no terminator of
+    // its own; do not scan past the end.
+    if (cur == end) {
+      actions.error("missing operand", opcodeStart - data.data());
+      break;
+    }
+
     const char* operandStart = cur;
     while (*cur != '\0') {
       ++cur;
